@@ -113,6 +113,16 @@ def parallel_probe(scratch, items, jobs=12):
         for i, m in ex.map(lambda a: run_probe(scratch, a[1], "p%d" % a[0]), list(enumerate(chunks))):
             impl.update(i)
             model.update(m)
+    # an image left without a verdict of the real code because the probe process of its chunk died or ran out of time
+    # on ANOTHER image is probed again on its own (bounded): the lack of a verdict is never read as a failure of that
+    # image; an image on which a probe dies alone keeps its `died` outcome (the real code aborting on it)
+    redo = [it for it in items if impl.get(it[0], "missing") == "missing" or impl.get(it[0], "").startswith("notrun")]
+    for k, it in enumerate(redo[:400]):
+        i2, m2 = run_probe(scratch, [it], "redo%d" % (k % 8))
+        if it[0] in i2:
+            impl[it[0]] = i2[it[0]]
+        if it[0] not in model and it[0] in m2:
+            model[it[0]] = m2[it[0]]
     return impl, model
 
 
